@@ -16,7 +16,7 @@
    queues and target-queue hierarchies are not in this model (word-level lemmas in Properties_C06.v and the oracles
    cover them); fair termination is not proved (safety + no stuck state + nothing left at quiescence). *)
 From Coq Require Import ZArith Bool List.
-From Verif Require Import Word Conc DqFields SLaneS SLaneSR SLaneS_inv SLaneS_proofs SLaneS_progress.
+From Verif Require Import Word Conc DqFields SLaneS SLaneSR SLaneS_inv SLaneS_proofs SLaneS_progress SLaneS_realtime.
 Import ListNotations.
 Local Open Scope Z_scope.
 
@@ -63,6 +63,19 @@ Theorem C06_slane_no_start_while_suspended : forall rb ina s,
   (forall t, licensed_pc (pcs s t) = true -> plic s = true /\ pstarts s = 0).
 Proof. exact no_start_after_suspend_returned. Qed.
 Print Assumptions C06_slane_no_start_while_suspended.
+
+(* ... in real time, over execution segments: along any segment of an execution in which at every state some
+   dispatch_suspend has returned whose dispatch_resume has not yet been called, AT MOST ONE callout begins (nstarted = length
+   of the list of begun callouts), and none at all when no drainer was past its suspended-check at the moment the word
+   became suspended (a suspend issued by the running item, or while nobody drains) *)
+Theorem C06_slane_at_most_one_start_between_suspend_and_resume : forall rb ina s acts s',
+  0 <= rb < 2 -> reach rb ina s -> 0 < susp_done s -> owed_path rb s acts s' ->
+  reach rb ina s' /\
+  nstarted s' - nstarted s = pstarts s' - pstarts s /\ plic s' = plic s /\
+  0 <= nstarted s' - nstarted s <= 1 /\
+  (plic s = false -> started s' = started s).
+Proof. exact starts_while_owed. Qed.
+Print Assumptions C06_slane_at_most_one_start_between_suspend_and_resume.
 
 (* the same for every suspended word (covers the activation period and suspends that have committed but not returned) *)
 Theorem C06_slane_no_start_while_word_suspended : forall rb ina s,
